@@ -79,6 +79,8 @@ impl Wake for TaskWaker {
     }
 
     fn wake_by_ref(self: &Arc<Self>) {
+        #[cfg(crux_verif)]
+        crate::verif::schedule_point("exec_wake:start");
         // This send can fail if the executor has been dropped.
         // In which case, nothing to do
         let _ = self.sender.send(self.task_id);
@@ -144,6 +146,8 @@ impl QueuingExecutor {
 
         // free the mutex so other threads can make progress
         drop(lock);
+        #[cfg(crux_verif)]
+        crate::verif::schedule_point("exec:slot_taken");
 
         let waker = Arc::new(TaskWaker {
             task_id,
@@ -154,6 +158,8 @@ impl QueuingExecutor {
 
         // poll the task
         if task.as_mut().poll(context).is_pending() {
+            #[cfg(crux_verif)]
+            crate::verif::schedule_point("exec:after_poll");
             // If it's still pending, put the future back in the slot
             self.tasks
                 .lock()
@@ -163,6 +169,8 @@ impl QueuingExecutor {
                 .replace(task);
             RunTask::Suspended
         } else {
+            #[cfg(crux_verif)]
+            crate::verif::schedule_point("exec:after_poll");
             // otherwise the future is completed and we can free the slot
             self.tasks.lock().unwrap().remove(*task_id as usize);
             RunTask::Completed
